@@ -49,10 +49,10 @@ def deref(e):
     return o() if e["weak"] else o
 
 
-def setup_env(P, servertype):
+def setup_env(P, servertype, variant=None):
     for cls in (items.Item, items.Other, items.KlassA, items.KlassB):
         P.server.expose(cls)
-    fx = fixture.Fixture(servertype=servertype, COMMTIMEOUT=0.0)
+    fx = fixture.Fixture(servertype=servertype, COMMTIMEOUT=0.0, variant=variant)
     pool = [items.Item("i0"), items.Item("i1"), items.Other("o2"), items.Item("i3"), items.Other("o4")]
 
     @P.server.expose
@@ -500,7 +500,8 @@ def plan(tier, seed):
 def run_shard(shard, rec):
     P = fixture.pyro()
     r = gen.rng(rec.seed, "c16", shard["i"])
-    fx, pool = setup_env(P, shard["servertype"])
+    fx, pool = setup_env(P, shard["servertype"], fixture.variant_for(rec.seed, "c16", repr(sorted(shard.items()))))
+    rec.count("fixture_variant:" + fx.variant)
     try:
         for h in range(shard["histories"]):
             if rec.should_stop(10):
